@@ -318,4 +318,557 @@ theorem local_left_inverse (dim : Nat) (θ : List ℝ) (h : InOpen θ) :
   ring
 
 
+
+/-! ## method 3: bit manipulation -/
+
+theorem clearBit_eq (k b : Nat) (hb : b < 64) (hk : k < 2 ^ (b + 1)) : clearBit k b = k % 2 ^ b := by
+  apply Nat.eq_of_testBit_eq
+  intro j
+  simp only [clearBit, allOnes64, Nat.testBit_and, Nat.testBit_xor, Nat.testBit_mod_two_pow, Nat.one_shiftLeft,
+    Nat.testBit_two_pow]
+  have h64 : (0xFFFFFFFFFFFFFFFF : Nat) = 2 ^ 64 - 1 := by norm_num
+  rw [h64, Nat.testBit_two_pow_sub_one]
+  by_cases hj : j < b
+  · have : j < 64 := by omega
+    have : b ≠ j := by omega
+    simp [*]
+  · by_cases hjb : j = b
+    · subst hjb; simp [hb]
+    · have hlt : b + 1 ≤ j := by omega
+      have : k.testBit j = false := by
+        apply Nat.testBit_lt_two_pow
+        exact lt_of_lt_of_le hk (Nat.pow_le_pow_right (by norm_num) hlt)
+      simp [this, hj]
+
+theorem bitLen_zero : bitLen 0 = 0 := by rw [bitLen]; simp
+theorem bitLen_pos (n : Nat) (h : n ≠ 0) : bitLen n = bitLen (n / 2) + 1 := by
+  rw [bitLen]; simp [h, Nat.shiftRight_eq_div_pow]
+
+theorem lt_two_pow_bitLen (n : Nat) : n < 2 ^ bitLen n := by
+  induction n using Nat.strong_induction_on with
+  | _ n ih =>
+    by_cases h : n = 0
+    · subst h; simp [bitLen_zero]
+    · rw [bitLen_pos n h, pow_succ]
+      have := ih (n / 2) (by omega)
+      omega
+
+theorem bitLen_eq_of (k b : Nat) (h1 : 2 ^ b ≤ k) (h2 : k < 2 ^ (b + 1)) : bitLen k = b + 1 := by
+  induction b generalizing k with
+  | zero =>
+    have : k = 1 := by simp at h1 h2; omega
+    subst this
+    rw [bitLen_pos 1 (by norm_num)]; simp [bitLen_zero]
+  | succ b ih =>
+    have hk : k ≠ 0 := by have := Nat.pos_of_ne_zero (pow_ne_zero (b + 1) (by norm_num : (2:Nat) ≠ 0)); omega
+    rw [bitLen_pos k hk, ih (k / 2)]
+    · rw [pow_succ] at h1; omega
+    · rw [pow_succ] at h2; omega
+
+theorem bitLen_le (n B : Nat) (h : n < 2 ^ B) : bitLen n ≤ B := by
+  induction B generalizing n with
+  | zero => have : n = 0 := by simpa using h
+            subst this; simp [bitLen_zero]
+  | succ B ih =>
+    by_cases hn : n = 0
+    · subst hn; simp [bitLen_zero]
+    · rw [bitLen_pos n hn]
+      have := ih (n / 2) (by rw [pow_succ] at h; omega)
+      omega
+
+
+section Walk
+
+variable (dim : Nat) (θ : Nat → ℝ)
+
+/-- the partial walk over the `b` low bits -/
+noncomputable def W (b k : Nat) : ℝ := binWalk dim θ b k 1
+
+theorem binWalk_mul (ld k : Nat) (x : ℝ) : binWalk dim θ ld k x = x * binWalk dim θ ld k 1 := by
+  induction ld generalizing k x with
+  | zero => simp [binWalk]
+  | succ ld ih =>
+    simp only [binWalk]
+    rw [ih]
+    conv_rhs => rw [ih]
+    split
+    · ring
+    · split <;> ring
+
+theorem W_zero (k : Nat) : W dim θ 0 k = 1 := by simp [W, binWalk]
+
+theorem W_succ_hi (b k : Nat) (hb : b < 64) (h1 : 2 ^ b ≤ k) (h2 : k < 2 ^ (b + 1)) :
+    W dim θ (b + 1) k = θ k * W dim θ b (k - 2 ^ b) := by
+  have hs : k >>> b ≠ 0 := by
+    rw [Nat.shiftRight_eq_div_pow]
+    exact Nat.ne_of_gt (Nat.div_pos h1 (by positivity))
+  have hc : clearBit k b = k - 2 ^ b := by
+    rw [clearBit_eq k b hb h2]
+    rw [pow_succ] at h2
+    rw [Nat.mod_eq_sub_mod h1, Nat.mod_eq_of_lt (by omega)]
+  simp only [W, binWalk, hs, ne_eq, not_false_eq_true, if_true, hc]
+  rw [binWalk_mul]; ring
+
+theorem W_succ_lo (b k : Nat) (hb : b < 64) (h1 : k < 2 ^ b) :
+    W dim θ (b + 1) k = (if k + 2 ^ b < dim then 1 - θ (k + 2 ^ b) else 1) * W dim θ b k := by
+  have hs : k >>> b = 0 := by
+    rw [Nat.shiftRight_eq_div_pow]; exact Nat.div_eq_of_lt h1
+  have hc : clearBit k b = k := by
+    rw [clearBit_eq k b hb (by rw [pow_succ]; omega), Nat.mod_eq_of_lt h1]
+  simp only [W, binWalk, hs, ne_eq, not_true_eq_false, if_false, hc, Nat.one_shiftLeft, ScalarReal.one_eq]
+  rw [binWalk_mul]
+  split <;> ring
+
+theorem W_nonneg (h : ∀ k, 0 ≤ θ k ∧ θ k ≤ 1) (b k : Nat) : 0 ≤ W dim θ b k := by
+  unfold W
+  suffices ∀ x : ℝ, 0 ≤ x → 0 ≤ binWalk dim θ b k x from this 1 zero_le_one
+  induction b generalizing k with
+  | zero => intro x hx; simpa [binWalk] using hx
+  | succ b ih =>
+    intro x hx
+    simp only [binWalk]
+    apply ih
+    split
+    · exact mul_nonneg hx (h k).1
+    · split
+      · simp only [ScalarReal.one_eq]; exact mul_nonneg hx (by linarith [(h (k + 1 <<< b)).2])
+      · exact hx
+
+theorem W_pos (h : ∀ k, 1 ≤ k → k < dim → 0 < θ k ∧ θ k < 1) (b k : Nat) (hb : b ≤ 64)
+    (hk : k < 2 ^ b) (hd : k < dim) : 0 < W dim θ b k := by
+  induction b generalizing k with
+  | zero => simp [W_zero]
+  | succ b ih =>
+    by_cases h1 : 2 ^ b ≤ k
+    · rw [W_succ_hi dim θ b k (by omega) h1 hk]
+      have hk1 : 1 ≤ k := le_trans (Nat.one_le_two_pow) h1
+      exact mul_pos (h k hk1 hd).1 (ih (k - 2 ^ b) (by omega) (by rw [pow_succ] at hk; omega) (by omega))
+    · rw [W_succ_lo dim θ b k (by omega) (by omega)]
+      refine mul_pos ?_ (ih k (by omega) (by omega) hd)
+      split
+      · rename_i hlt
+        have := (h (k + 2 ^ b) (by have := Nat.one_le_two_pow (n := b); omega) hlt).2
+        linarith
+      · exact one_pos
+
+/-- the walk only reads parameters theta_1 .. theta_(dim-1) -/
+theorem W_congr (θ' : Nat → ℝ) (h : ∀ k, 1 ≤ k → k < dim → θ k = θ' k) (b k : Nat) (hb : b ≤ 64)
+    (hk : k < 2 ^ b) (hd : k < dim) : W dim θ b k = W dim θ' b k := by
+  induction b generalizing k with
+  | zero => simp [W_zero]
+  | succ b ih =>
+    by_cases h1 : 2 ^ b ≤ k
+    · rw [W_succ_hi dim θ b k (by omega) h1 hk, W_succ_hi dim θ' b k (by omega) h1 hk]
+      have hk1 : 1 ≤ k := le_trans (Nat.one_le_two_pow) h1
+      rw [h k hk1 hd, ih (k - 2 ^ b) (by omega) (by rw [pow_succ] at hk; omega) (by omega)]
+    · rw [W_succ_lo dim θ b k (by omega) (by omega), W_succ_lo dim θ' b k (by omega) (by omega),
+        ih k (by omega) (by omega) hd]
+      congr 1
+      split
+      · rename_i hlt
+        rw [h (k + 2 ^ b) (by have := Nat.one_le_two_pow (n := b); omega) hlt]
+      · rfl
+
+
+end Walk
+
+section Mass
+open Finset
+
+theorem sum_even_odd (g : ℕ → ℝ) (n : ℕ) (hz : ∀ j, n ≤ j → g j = 0) :
+    ∑ j ∈ range n, g j = ∑ j ∈ range n, g (2 * j) + ∑ j ∈ range n, g (2 * j + 1) := by
+  have h2 : ∀ m, ∑ j ∈ range (2 * m), g j = ∑ j ∈ range m, (g (2 * j) + g (2 * j + 1)) := by
+    intro m
+    induction m with
+    | zero => simp
+    | succ m ih =>
+      rw [show 2 * (m + 1) = 2 * m + 1 + 1 by ring, sum_range_succ, sum_range_succ, ih, sum_range_succ]
+      ring
+  rw [← sum_add_distrib, ← h2, two_mul, sum_range_add]
+  have : ∑ x ∈ range n, g (n + x) = 0 := sum_eq_zero (fun x _ => hz _ (by omega))
+  rw [this, add_zero]
+
+variable (dim : Nat) (p : Nat → ℝ)
+
+/-- mass of the indices `t < dim` with `t ≡ r (mod 2^b)`, written as the loop of the code reads it -/
+noncomputable def M (b r : Nat) : ℝ :=
+  ∑ j ∈ range dim, if j * 2 ^ b + r < dim then p (j * 2 ^ b + r) else 0
+
+theorem M_split (b r : Nat) : M dim p b r = M dim p (b + 1) r + M dim p (b + 1) (r + 2 ^ b) := by
+  unfold M
+  rw [sum_even_odd (fun j => if j * 2 ^ b + r < dim then p (j * 2 ^ b + r) else 0) dim]
+  · congr 1
+    · apply sum_congr rfl; intro j _
+      have : 2 * j * 2 ^ b + r = j * 2 ^ (b + 1) + r := by rw [pow_succ]; ring
+      simp only [this]
+    · apply sum_congr rfl; intro j _
+      have : (2 * j + 1) * 2 ^ b + r = j * 2 ^ (b + 1) + (r + 2 ^ b) := by rw [pow_succ]; ring
+      simp only [this]
+  · intro j hj
+    have : ¬ (j * 2 ^ b + r < dim) := by
+      have := Nat.one_le_two_pow (n := b)
+      have : j ≤ j * 2 ^ b := Nat.le_mul_of_pos_right j (by omega)
+      omega
+    simp [this]
+
+theorem M_of_ge (b r : Nat) (h : dim ≤ r) : M dim p b r = 0 := by
+  unfold M; apply sum_eq_zero; intro j _
+  have : ¬ (j * 2 ^ b + r < dim) := by omega
+  simp [this]
+
+theorem M_top (b r : Nat) (h : dim ≤ 2 ^ b) (hr : r < dim) : M dim p b r = p r := by
+  unfold M
+  rw [sum_eq_single 0]
+  · simp [hr]
+  · intro j _ hj
+    have : ¬ (j * 2 ^ b + r < dim) := by
+      have : 2 ^ b ≤ j * 2 ^ b := Nat.le_mul_of_pos_left _ (by omega)
+      omega
+    simp [this]
+  · intro h0; exact absurd (mem_range.mpr (by omega)) h0
+
+theorem M_pos (hp : ∀ t, t < dim → 0 < p t) (b r : Nat) (hr : r < dim) : 0 < M dim p b r := by
+  unfold M
+  apply sum_pos'
+  · intro j _; split
+    · exact le_of_lt (hp _ ‹_›)
+    · exact le_refl _
+  · exact ⟨0, mem_range.mpr (by omega), by simp [hr, hp r hr]⟩
+
+theorem M_congr (p' : Nat → ℝ) (h : ∀ t, t < dim → p t = p' t) (b r : Nat) : M dim p b r = M dim p' b r := by
+  unfold M; apply sum_congr rfl; intro j _
+  split
+  · exact h _ ‹_›
+  · rfl
+
+theorem M_zero_zero : M dim p 0 0 = ∑ j ∈ range dim, p j := by
+  unfold M; apply sum_congr rfl; intro j hj
+  simp [mem_range.mp hj]
+
+
+end Mass
+
+section Acc
+open Finset
+
+variable (dim : Nat) (p : Nat → ℝ)
+
+theorem binAcc_eq (li2 pi : Nat) (fuel j : Nat) (i0 i1 : ℝ) :
+    binAcc dim p li2 pi fuel j i0 i1 =
+      (i0 + ∑ x ∈ range fuel, (if (j + x) * 2 ^ li2 + pi < dim then p ((j + x) * 2 ^ li2 + pi) else 0),
+       i1 + ∑ x ∈ range fuel, (if (j + x) * 2 ^ li2 + (pi + 2 ^ (li2 - 1)) < dim
+          then p ((j + x) * 2 ^ li2 + (pi + 2 ^ (li2 - 1))) else 0)) := by
+  induction fuel generalizing j i0 i1 with
+  | zero => simp [binAcc]
+  | succ fuel ih =>
+    simp only [binAcc, Nat.shiftLeft_eq, Nat.one_mul, ge_iff_le]
+    by_cases ht : dim ≤ j * 2 ^ li2 + pi
+    · rw [if_pos ht]
+      have hmono : ∀ x, j * 2 ^ li2 ≤ (j + x) * 2 ^ li2 := fun x => Nat.mul_le_mul_right _ (by omega)
+      have z0 : ∑ x ∈ range (fuel + 1), (if (j + x) * 2 ^ li2 + pi < dim then p ((j + x) * 2 ^ li2 + pi) else 0) = 0 := by
+        apply sum_eq_zero; intro x _
+        have := hmono x
+        rw [if_neg (by omega)]
+      have z1 : ∑ x ∈ range (fuel + 1), (if (j + x) * 2 ^ li2 + (pi + 2 ^ (li2 - 1)) < dim
+          then p ((j + x) * 2 ^ li2 + (pi + 2 ^ (li2 - 1))) else 0) = 0 := by
+        apply sum_eq_zero; intro x _
+        rw [if_neg (Nat.not_lt.mpr (le_trans ht (Nat.add_le_add (hmono x) (Nat.le_add_right _ _))))]
+      rw [z0, z1]; simp
+    · rw [if_neg ht, ih]
+      rw [sum_range_succ' _ fuel, sum_range_succ' _ fuel]
+      simp only [Nat.add_zero]
+      have e : ∀ x, j + 1 + x = j + (x + 1) := fun x => by omega
+      simp only [e]
+      have e2 : j * 2 ^ li2 + pi + 2 ^ (li2 - 1) = j * 2 ^ li2 + (pi + 2 ^ (li2 - 1)) := by omega
+      rw [e2, if_pos (by omega : j * 2 ^ li2 + pi < dim)]
+      refine Prod.ext ?_ ?_
+      · simp only; ring
+      · simp only; split <;> ring
+
+theorem binAcc_M (li2 pi : Nat) :
+    binAcc dim p li2 pi dim 0 0 0 = (M dim p li2 pi, M dim p li2 (pi + 2 ^ (li2 - 1))) := by
+  rw [binAcc_eq]; simp [M]
+
+/-- the parameter computed by the code for index `i` whose strongest bit is `b` -/
+theorem thetaBinary_eq (i b : Nat) (hb : b < 64) (h1 : 2 ^ b ≤ i) (h2 : i < 2 ^ (b + 1)) :
+    thetaBinary dim p i =
+      M dim p (b + 1) i / (M dim p (b + 1) (i - 2 ^ b) + M dim p (b + 1) i) := by
+  have hl : bitLen i = b + 1 := bitLen_eq_of i b h1 h2
+  have hc : clearBit i b = i - 2 ^ b := by
+    rw [clearBit_eq i b hb h2]
+    rw [pow_succ] at h2
+    rw [Nat.mod_eq_sub_mod h1, Nat.mod_eq_of_lt (by omega)]
+  simp only [thetaBinary, hl, Nat.add_sub_cancel, hc, ScalarReal.zero_eq]
+  rw [binAcc_M]
+  have : i - 2 ^ b + 2 ^ b = i := by omega
+  simp only [Nat.add_sub_cancel, this]
+
+
+end Acc
+
+section Marginal
+open Finset
+
+variable (dim : Nat) (θ : Nat → ℝ)
+
+/-- Marginals of the probabilities produced by the binary walk: the mass of the class
+`t ≡ r (mod 2^b)` is the partial walk over the `b` low bits of `r`. -/
+theorem marginal_walk (B : Nat) (hB : B ≤ 64) (hdim : dim ≤ 2 ^ B) (d b : Nat) (hbd : b + d = B)
+    (r : Nat) (hr : r < 2 ^ b) (hrd : r < dim) :
+    M dim (fun i => W dim θ B i) b r = W dim θ b r := by
+  induction d generalizing b r with
+  | zero =>
+    have : b = B := by omega
+    subst this
+    rw [M_top dim _ b r hdim hrd]
+  | succ d ih =>
+    have hb : b < 64 := by omega
+    rw [M_split, ih (b + 1) (by omega) r (by rw [pow_succ]; omega) hrd, W_succ_lo dim θ b r hb hr]
+    by_cases hlt : r + 2 ^ b < dim
+    · rw [ih (b + 1) (by omega) (r + 2 ^ b) (by rw [pow_succ]; omega) hlt,
+        W_succ_hi dim θ b (r + 2 ^ b) hb (by omega) (by rw [pow_succ]; omega), if_pos hlt]
+      simp only [Nat.add_sub_cancel]; ring
+    · rw [M_of_ge dim _ (b + 1) (r + 2 ^ b) (by omega), if_neg hlt]; ring
+
+/-- every parameter vector: the probabilities of the binary coding sum to one -/
+theorem walk_sum_one (hd : 0 < dim) (B : Nat) (hB : B ≤ 64) (hdim : dim ≤ 2 ^ B) :
+    ∑ i ∈ range dim, W dim θ B i = 1 := by
+  rw [← M_zero_zero dim (fun i => W dim θ B i), marginal_walk dim θ B hB hdim B 0 (by omega) 0 (by simp) hd, W_zero]
+
+/-- the parameters recomputed from the walk's probabilities are the parameters -/
+theorem theta_of_walk (h : ∀ k, 1 ≤ k → k < dim → 0 < θ k ∧ θ k < 1) (B : Nat) (hB : B ≤ 64)
+    (hdim : dim ≤ 2 ^ B) (i : Nat) (hi1 : 1 ≤ i) (hi : i < dim) :
+    thetaBinary dim (fun i => W dim θ B i) i = θ i := by
+  obtain ⟨b, h1, h2⟩ : ∃ b, 2 ^ b ≤ i ∧ i < 2 ^ (b + 1) :=
+    ⟨Nat.log2 i, by rw [Nat.log2_eq_log_two]; exact Nat.pow_log_le_self 2 (by omega),
+      by rw [Nat.log2_eq_log_two]; exact Nat.lt_pow_succ_log_self (by norm_num) i⟩
+  have hbB : b < B := by
+    by_contra hc
+    have : 2 ^ B ≤ 2 ^ b := Nat.pow_le_pow_right (by norm_num) (by omega)
+    omega
+  have hb : b < 64 := by omega
+  rw [thetaBinary_eq dim _ i b hb h1 h2]
+  have hr : i - 2 ^ b < 2 ^ b := by rw [pow_succ] at h2; omega
+  obtain ⟨d, hd⟩ : ∃ d, b + 1 + d = B := ⟨B - (b + 1), by omega⟩
+  rw [marginal_walk dim θ B hB hdim d (b + 1) hd i h2 hi,
+    marginal_walk dim θ B hB hdim d (b + 1) hd (i - 2 ^ b) (by rw [pow_succ]; omega) (by omega),
+    W_succ_hi dim θ b i hb h1 h2, W_succ_lo dim θ b (i - 2 ^ b) hb hr]
+  have e : i - 2 ^ b + 2 ^ b = i := by omega
+  rw [e, if_pos hi]
+  have hW := W_pos dim θ h b (i - 2 ^ b) (by omega) hr (by omega)
+  have : W dim θ b (i - 2 ^ b) ≠ 0 := ne_of_gt hW
+  field_simp
+  ring
+
+
+end Marginal
+
+section Roundtrip
+open Finset
+
+variable (dim : Nat) (p : Nat → ℝ)
+
+/-- walking with the parameters computed from a positive vector gives the class masses,
+divided by the total -/
+theorem walk_of_theta (hp : ∀ t, t < dim → 0 < p t) (b : Nat) (hb : b ≤ 64) (k : Nat)
+    (hk : k < 2 ^ b) (hd : k < dim) :
+    W dim (fun i => thetaBinary dim p i) b k = M dim p b k / M dim p 0 0 := by
+  have hS : M dim p 0 0 ≠ 0 := ne_of_gt (M_pos dim p hp 0 0 (by omega))
+  induction b generalizing k with
+  | zero =>
+    have : k = 0 := by simpa using hk
+    subst this
+    rw [W_zero, div_self hS]
+  | succ b ih =>
+    have hb' : b < 64 := by omega
+    by_cases h1 : 2 ^ b ≤ k
+    · have hr : k - 2 ^ b < 2 ^ b := by rw [pow_succ] at hk; omega
+      rw [W_succ_hi dim _ b k hb' h1 hk, ih (by omega) (k - 2 ^ b) hr (by omega)]
+      rw [thetaBinary_eq dim p k b hb' h1 hk, M_split dim p b (k - 2 ^ b)]
+      have e : k - 2 ^ b + 2 ^ b = k := by omega
+      rw [e]
+      have hpos : 0 < M dim p (b + 1) (k - 2 ^ b) + M dim p (b + 1) k :=
+        add_pos (M_pos dim p hp _ _ (by omega)) (M_pos dim p hp _ _ hd)
+      have := ne_of_gt hpos
+      field_simp
+    · have h1' : k < 2 ^ b := by omega
+      rw [W_succ_lo dim _ b k hb' h1', ih (by omega) k h1' hd, M_split dim p b k]
+      by_cases hlt : k + 2 ^ b < dim
+      · rw [if_pos hlt]
+        rw [thetaBinary_eq dim p (k + 2 ^ b) b hb' (by omega) (by rw [pow_succ]; omega)]
+        simp only [Nat.add_sub_cancel]
+        have hpos : 0 < M dim p (b + 1) k + M dim p (b + 1) (k + 2 ^ b) :=
+          add_pos (M_pos dim p hp _ _ hd) (M_pos dim p hp _ _ hlt)
+        have := ne_of_gt hpos
+        field_simp
+        ring
+      · rw [if_neg hlt, M_of_ge dim p (b + 1) (k + 2 ^ b) (by omega)]; ring
+
+theorem walk_roundtrip (hp : ∀ t, t < dim → 0 < p t) (B : Nat) (hB : B ≤ 64) (hdim : dim ≤ 2 ^ B)
+    (i : Nat) (hi : i < dim) :
+    W dim (fun i => thetaBinary dim p i) B i = p i / ∑ j ∈ range dim, p j := by
+  rw [walk_of_theta dim p hp B hB i (by omega) hi, M_top dim p B i hdim hi, M_zero_zero]
+
+/-- the parameters computed from a positive vector are in ]0,1[ -/
+theorem thetaBinary_inOpen (hp : ∀ t, t < dim → 0 < p t) (i : Nat) (hi1 : 1 ≤ i) (hi : i < dim)
+    (h64 : dim ≤ 2 ^ 64) :
+    0 < thetaBinary dim p i ∧ thetaBinary dim p i < 1 := by
+  obtain ⟨b, h1, h2⟩ : ∃ b, 2 ^ b ≤ i ∧ i < 2 ^ (b + 1) :=
+    ⟨Nat.log2 i, by rw [Nat.log2_eq_log_two]; exact Nat.pow_log_le_self 2 (by omega),
+      by rw [Nat.log2_eq_log_two]; exact Nat.lt_pow_succ_log_self (by norm_num) i⟩
+  have hb : b < 64 := by
+    by_contra hc
+    have : 2 ^ 64 ≤ 2 ^ b := Nat.pow_le_pow_right (by norm_num) (by omega)
+    omega
+  rw [thetaBinary_eq dim p i b hb h1 h2]
+  have p0 := M_pos dim p hp (b + 1) (i - 2 ^ b) (by omega)
+  have p1 := M_pos dim p hp (b + 1) i hi
+  constructor
+  · positivity
+  · rw [div_lt_one (by positivity)]; linarith
+
+
+end Roundtrip
+
+section BinaryLists
+open Finset
+
+theorem sum_map_range (f : Nat → ℝ) (n : Nat) : ((List.range n).map f).sum = ∑ i ∈ range n, f i := by
+  induction n with
+  | zero => simp
+  | succ n ih => rw [List.range_succ, List.map_append, List.sum_append, ih, sum_range_succ]; simp
+
+theorem sum_nth (p : List ℝ) : ∑ j ∈ range p.length, nth p j = p.sum := by
+  rw [← sum_map_range]
+  congr 1
+  apply List.ext_getElem
+  · simp
+  · intro i h1 h2
+    have : i < p.length := by simpa using h2
+    simp [nth, List.getD_eq_getElem?_getD, this]
+
+theorem probsBinary_length (dim : Nat) (θ : List ℝ) : (probsBinary dim θ).length = dim := by
+  simp [probsBinary, probsBinaryF]
+
+theorem nth_probsBinary (dim : Nat) (θ : List ℝ) (t : Nat) (ht : t < dim) :
+    nth (probsBinary dim θ) t = W dim (lookup θ) (bitLen dim) t := by
+  simp [nth, probsBinary, probsBinaryF, W, List.getD_eq_getElem?_getD, ht]
+
+theorem getElem_probsBinary (dim : Nat) (θ : List ℝ) (t : Nat) (ht : t < (probsBinary dim θ).length) :
+    (probsBinary dim θ)[t] = W dim (lookup θ) (bitLen dim) t := by
+  simp [probsBinary, probsBinaryF, W]
+
+theorem lookup_bounds (θ : List ℝ) (h : ∀ t ∈ θ, 0 ≤ t ∧ t ≤ 1) (k : Nat) :
+    0 ≤ lookup θ k ∧ lookup θ k ≤ 1 := by
+  have hd : (default : ℝ) = 0 := rfl
+  unfold lookup
+  split
+  · simp [hd]
+  · rw [List.getD_eq_getElem?_getD]
+    cases hh : θ[k - 1]? with
+    | none => simp [hd]
+    | some v => simpa using h v (List.mem_of_getElem? hh)
+
+theorem lookup_inOpen (θ : List ℝ) (dim : Nat) (hl : θ.length = dim - 1) (h : InOpen θ) (k : Nat)
+    (h1 : 1 ≤ k) (h2 : k < dim) : 0 < lookup θ k ∧ lookup θ k < 1 := by
+  unfold lookup
+  rw [if_neg (by omega), List.getD_eq_getElem?_getD, List.getElem?_eq_getElem (by omega)]
+  simpa using h _ (List.getElem_mem (by omega))
+
+theorem bitLen_le64 (dim : Nat) (h : dim < 2 ^ 31) : bitLen dim ≤ 64 :=
+  le_trans (bitLen_le dim 31 h) (by norm_num)
+
+theorem probsBinary_sum (dim : Nat) (θ : List ℝ) (hd : 0 < dim) (h31 : dim < 2 ^ 31) :
+    (probsBinary dim θ).sum = 1 := by
+  simp only [probsBinary, probsBinaryF]
+  rw [sum_map_range]
+  have := walk_sum_one dim (lookup θ) hd (bitLen dim) (bitLen_le64 dim h31) (le_of_lt (lt_two_pow_bitLen dim))
+  simpa [W] using this
+
+theorem probsBinary_nonneg (dim : Nat) (θ : List ℝ) (h : ∀ t ∈ θ, 0 ≤ t ∧ t ≤ 1) :
+    ∀ p ∈ probsBinary dim θ, 0 ≤ p := by
+  intro p hp
+  simp only [probsBinary, probsBinaryF, List.mem_map] at hp
+  obtain ⟨i, _, rfl⟩ := hp
+  have := W_nonneg dim (lookup θ) (lookup_bounds θ h) (bitLen dim) i
+  simpa [W] using this
+
+theorem probsBinary_pos (dim : Nat) (θ : List ℝ) (hl : θ.length = dim - 1) (h : InOpen θ) (h31 : dim < 2 ^ 31) :
+    AllPos (probsBinary dim θ) := by
+  intro p hp
+  simp only [probsBinary, probsBinaryF, List.mem_map, List.mem_range] at hp
+  obtain ⟨i, hi, rfl⟩ := hp
+  have := W_pos dim (lookup θ) (lookup_inOpen θ dim hl h) _ i (bitLen_le64 dim h31)
+    (lt_of_lt_of_le hi (le_of_lt (lt_two_pow_bitLen dim))) hi
+  simpa [W] using this
+
+theorem paramsBinary_length (p : List ℝ) : (paramsBinary p).length = p.length - 1 := by
+  simp [paramsBinary, paramsBinaryF]
+
+theorem lookup_paramsBinary (p : List ℝ) (k : Nat) (h1 : 1 ≤ k) (h2 : k < p.length) :
+    lookup (paramsBinary p) k = thetaBinary p.length (nth p) k := by
+  unfold lookup
+  rw [if_neg (by omega), List.getD_eq_getElem?_getD]
+  simp only [paramsBinary, paramsBinaryF]
+  rw [List.getElem?_map, List.getElem?_range (by omega)]
+  simp only [Option.map_some, Option.getD_some]
+  congr 1; omega
+
+theorem nth_pos (p : List ℝ) (hp : AllPos p) (t : Nat) (ht : t < p.length) : 0 < nth p t := by
+  unfold nth
+  rw [List.getD_eq_getElem?_getD, List.getElem?_eq_getElem ht]
+  simpa using hp _ (List.getElem_mem ht)
+
+theorem binary_roundtrip_normalises (p : List ℝ) (hp : AllPos p) (h31 : p.length < 2 ^ 31) :
+    probsBinary p.length (paramsBinary p) = p.map (fun q => q / p.sum) := by
+  apply List.ext_getElem
+  · simp [probsBinary_length]
+  · intro i h1 h2
+    have hi : i < p.length := by simpa [probsBinary_length] using h1
+    rw [getElem_probsBinary]
+    rw [W_congr p.length (lookup (paramsBinary p)) (fun k => thetaBinary p.length (nth p) k)
+      (fun k a b => lookup_paramsBinary p k a b) _ i (bitLen_le64 _ h31)
+      (lt_of_lt_of_le hi (le_of_lt (lt_two_pow_bitLen _))) hi]
+    rw [walk_roundtrip p.length (nth p) (nth_pos p hp) _ (bitLen_le64 _ h31)
+      (le_of_lt (lt_two_pow_bitLen _)) i hi, sum_nth]
+    simp [nth, List.getD_eq_getElem?_getD, hi]
+
+theorem paramsBinary_inOpen (p : List ℝ) (hp : AllPos p) (h31 : p.length < 2 ^ 31) :
+    InOpen (paramsBinary p) := by
+  intro t ht
+  simp only [paramsBinary, paramsBinaryF, List.mem_map, List.mem_range] at ht
+  obtain ⟨i, hi, rfl⟩ := ht
+  exact thetaBinary_inOpen p.length (nth p) (nth_pos p hp) (i + 1) (by omega) (by omega)
+    (le_trans (le_of_lt h31) (by norm_num))
+
+theorem thetaBinary_congr (dim : Nat) (p p' : Nat → ℝ) (h : ∀ t, t < dim → p t = p' t) (i : Nat)
+    (hi1 : 1 ≤ i) (hi : i < dim) (h64 : dim ≤ 2 ^ 64) : thetaBinary dim p i = thetaBinary dim p' i := by
+  obtain ⟨b, h1, h2⟩ : ∃ b, 2 ^ b ≤ i ∧ i < 2 ^ (b + 1) :=
+    ⟨Nat.log2 i, by rw [Nat.log2_eq_log_two]; exact Nat.pow_log_le_self 2 (by omega),
+      by rw [Nat.log2_eq_log_two]; exact Nat.lt_pow_succ_log_self (by norm_num) i⟩
+  have hb : b < 64 := by
+    by_contra hc
+    have : 2 ^ 64 ≤ 2 ^ b := Nat.pow_le_pow_right (by norm_num) (by omega)
+    omega
+  rw [thetaBinary_eq dim p i b hb h1 h2, thetaBinary_eq dim p' i b hb h1 h2,
+    M_congr dim p p' h, M_congr dim p p' h]
+
+theorem binary_left_inverse (dim : Nat) (θ : List ℝ) (hl : θ.length = dim - 1) (h : InOpen θ)
+    (h31 : dim < 2 ^ 31) : paramsBinary (probsBinary dim θ) = θ := by
+  apply List.ext_getElem
+  · simp [paramsBinary_length, probsBinary_length, hl]
+  · intro i h1 h2
+    have hi : i + 1 < dim := by omega
+    simp only [paramsBinary, paramsBinaryF, probsBinary_length, List.getElem_map, List.getElem_range]
+    rw [thetaBinary_congr dim _ (fun t => W dim (lookup θ) (bitLen dim) t)
+      (fun t ht => nth_probsBinary dim θ t ht) (i + 1) (by omega) hi (le_trans (le_of_lt h31) (by norm_num))]
+    rw [theta_of_walk dim (lookup θ) (lookup_inOpen θ dim hl h) _ (bitLen_le64 dim h31)
+      (le_of_lt (lt_two_pow_bitLen dim)) (i + 1) (by omega) hi]
+    unfold lookup
+    rw [if_neg (by omega), List.getD_eq_getElem?_getD]
+    simp [h2]
+
+
+end BinaryLists
+
 end Bpp.Simplex
